@@ -33,7 +33,7 @@ TITLES = [
     ("C13", r"@pos0:(varchar|date)", "range pushdown on a non-integer primary key panics in start_rowid ('for now support range-filter scan by sort key type of int32')", "src/storage/secondary/rowset/disk_rowset.rs:165; src/planner/rules/range.rs"),
     ("C13", r"@pos[12]:", "range pushdown when the primary key is not the first table column: start_rowid reads column 0's first keys and the row filter is applied to the first *scanned* column", "src/storage/secondary/rowset/disk_rowset.rs start_rowid; rowset_iterator.rs (id == 0); src/planner/rules/range.rs"),
     ("C20", r"escape-option", "with an explicit ESCAPE character COPY .. TO still doubles quotes and does not escape the escape character, while COPY .. FROM un-escapes: cells containing the escape character and a quote do not round-trip (the csv writer cannot escape the escape character; not small)", "src/executor/copy_to_file.rs / copy_from_file.rs"),
-    ("C20", r"empty-string-imported-as-null", "the empty string and NULL are both an empty field: '' is imported as NULL (the csv reader does not tell a quoted empty field from an unquoted one)", "src/array/mod.rs push_str; src/executor/copy_from_file.rs"),
+    ("C20", r"empty-string-imported-as-null", "the empty string (and, for a BLOB column, the empty blob) and NULL are both an empty field: '' is imported as NULL (the csv reader does not tell a quoted empty field from an unquoted one)", "src/array/mod.rs push_str; src/executor/copy_from_file.rs"),
     ("C20", r"header", "COPY .. TO with HEADER does not write a header line, but COPY .. FROM with HEADER skips the first line: the first data row is lost", "src/executor/copy_to_file.rs (has_headers only affects serde serialisation); src/executor/copy_from_file.rs"),
     ("C20", r"import-fails@.*null", "NULL is exported as the text NULL, which cannot be imported into a non-string column", "src/executor/copy_to_file.rs (get_to_string); src/array/data_chunk_builder.rs push_str_row"),
     ("C20", r"rows-differ@str", "string columns do not round-trip: NULL is exported as the text 'NULL' (imported as that string), the empty string is imported as NULL", "src/executor/copy_to_file.rs; src/array/data_chunk_builder.rs push_str_row"),
@@ -54,7 +54,7 @@ TITLES = [
     ("C17", r"malformed-plan_apply", "correlated IN / scalar subqueries whose correlation is not a plain equality stay `apply` nodes, which the executor cannot run", "src/planner/rules/plan.rs subquery_rules"),
     ("C17", r"malformed-plan_unresolved-subquery", "scalar subqueries in the select list and IN subqueries under OR survive optimisation as sub-plans inside expressions (no executor for them)", "src/planner/rules/plan.rs subquery_rules"),
     ("C17", r"malformed-plan:unresolved-subquery", "scalar / nested IN subqueries survive optimisation as sub-plans inside expressions (no executor for them)", "src/planner/rules/plan.rs subquery_rules"),
-    ("C17", r"malformed-plan_column-not-in-input", "a computed column of a derived table (a `ref` to `t1.a + t2.c`) used in an outer join condition: once the derived table's projection is merged away the column analysis still treats the ref as one opaque column that neither join input produces, so `pushdown-filter-join` pushes the condition onto the side that lacks its base columns (executor construction panics: column not found from input); widening the column set of a ref changes the plans pinned by the planner tests (not small)", "src/planner/rules/plan.rs analyze_columns / depend_on; pushdown-filter-join rules"),
+    ("C17", r"malformed-plan_column-not-in-input", "a computed column of a derived table (a `ref` to `t1.a + t2.c`) used in an outer join condition: once the derived table's projection is merged away the column analysis still treats the ref as one opaque column that neither join input produces, so `pushdown-filter-join` pushes the condition onto the side that lacks its base columns (executor construction panics: column not found from input); widening the column set of a ref changes the plans pinned by the planner tests (not small); the same analysis fails a correlated scalar subquery that groups by, and selects, an expression of the inner table (`(select t2.a + 1 from t2 where t2.a = t1.a group by t2.a + 1)`): the decorrelated filter references the inner column above the aggregate that no longer produces it", "src/planner/rules/plan.rs analyze_columns / depend_on; pushdown-filter-join rules"),
     ("C17", r"malformed-plan", "the optimised plan violates what the executor requires", "src/planner/rules/plan.rs"),
     ("C17", r"operator-panics|execution-panics|executor-build-panics", "accepted statements whose plan panics in the executor: RIGHT/FULL nested-loop join todo!(), non-constant LIMIT, scalar subquery forms", "src/executor/nested_loop_join.rs; src/executor/mod.rs"),
     ("C18", r"database-does-not-open", "every row-set index is decoded when the database is opened: one corrupted *.idx file makes Database::new_on_disk panic, so tables that are not affected cannot be read either", "src/storage/secondary/storage.rs bootstrap (DiskRowset::open for all row-sets); src/db.rs new_on_disk unwrap"),
